@@ -87,6 +87,8 @@ IDENTITY_CALLS = {
     'std::option::Option::as_ref': 0,
     'std::option::Option::as_mut': 0,
     'std::option::Option::as_deref': 0,
+    'std::option::Option::copied': 0,
+    'std::option::Option::cloned': 0,
     'std::result::Result::as_ref': 0,
     'std::boxed::Box::new': 0,
     'std::convert::Into::into': 0,
